@@ -490,8 +490,10 @@ func (p *program) getFilename(f *ast.File) string {
 func (p *program) shortenLocation(loc string) string {
 	// If possible, construct relative path.
 	relLoc := loc
-	if p.workDir != "" {
-		relLoc = strings.Replace(loc, p.workDir, "./", 1)
+	if p.workDir != "" && strings.HasPrefix(loc, p.workDir) {
+		// Only a leading working directory makes a relative path:
+		// it can also occur in the middle of an unrelated path.
+		relLoc = "./" + loc[len(p.workDir):]
 	}
 
 	switch {
